@@ -113,13 +113,16 @@ def parsePqnameDecltypeSpecifier (F : Nat) : M PQSeg := do
   let toks ← consumeBalancedTokens F [tok]
   pure (.decltype (toTokens (sliceIf Gen.decltypeSliced toks)))
 
+/-- one iteration of the keyword loop of `_parse_pqname_fundamental` -/
+def fundBody (names : List String) : M (List String ⊕ List String) := do
+  match (← tokenIfInSet Gen.compoundFundamentals) with
+  | none => pure (.inr names)
+  | some t => pure (.inl (names ++ [t.value]))
+
 /-- `_parse_pqname_fundamental(tok_value)` -/
 def parsePqnameFundamental (F : Nat) (tokValue : String) : M PQSeg := do
   if Gen.compoundFundamentals.contains tokValue then do
-    let names ← loopN F [tokValue] (fun names => do
-      match (← tokenIfInSet Gen.compoundFundamentals) with
-      | none => pure (.inr names)
-      | some t => pure (.inl (names ++ [t.value])))
+    let names ← loopN F [tokValue] fundBody
     pure (.fund (joinWith " " names))
   else pure (.fund tokValue)
 
@@ -195,6 +198,44 @@ def opTruthy : Option String → Bool
   | some s => !s.isEmpty
   | none => false
 
+/-- one segment of a qualified name, starting at `tok`; the flag says that no further segment
+    may follow (a fundamental type or an operator name ends the name) -/
+def pqnameSeg (F : Nat) (rec : Core) (fnOk fundOk : Bool) (segments : List PQSeg) (tok : CTok) :
+    M (List PQSeg × Option String × Bool) := do
+  let tokValue := tok.value
+  if tokValue = "decltype" then do
+    let seg ← parsePqnameDecltypeSpecifier F
+    pure (segments ++ [seg], (none : Option String), false)
+  else if Gen.fundamentals.contains tokValue then
+    if !fundOk then raiseParseError (some tok)
+    else do
+      let seg ← parsePqnameFundamental F tokValue
+      pure (segments ++ [seg], none, true)
+  else do
+    if tokValue = "[[" then consumeAttributeSpecifierSeq F tok
+    let (tok, tokValue) ← (
+      if tokValue = "template" then do
+        let t ← nextTokenMustBe ["NAME"]
+        pure (t, t.value)
+      else pure (tok, tokValue))
+    let (seg, op) ← parsePqnameName F rec tokValue
+    if opTruthy op then
+      if !fnOk then raiseParseError (some tok) "NAME"
+      else pure (segments ++ [seg], op, true)
+    else pure (segments ++ [seg], op, false)
+
+/-- one iteration of the segment loop of `_parse_pqname` -/
+def pqnameBody (F : Nat) (rec : Core) (fnOk fundOk : Bool) (st : List PQSeg × CTok) :
+    M ((List PQSeg × CTok) ⊕ (List PQSeg × Option String)) := do
+  let (segments, op, done) ← pqnameSeg F rec fnOk fundOk st.1 st.2
+  if done then pure (.inr (segments, op))
+  else
+    match (← tokenIf ["DBL_COLON"]) with
+    | none => pure (.inr (segments, op))
+    | some _ => do
+      let t ← nextTokenMustBe ["NAME", "operator", "template", "decltype"]
+      pure (.inl (segments, t))
+
 /-- `_parse_pqname(tok, fn_ok, compound_ok, fund_ok)` -/
 def parsePqnameStep (F : Nat) (rec : Core) (tok : Option CTok) (fnOk compoundOk fundOk : Bool) :
     M (PQName × Option String) := do
@@ -235,39 +276,52 @@ def parsePqnameStep (F : Nat) (rec : Core) (tok : Option CTok) (fnOk compoundOk 
           let t ← nextTokenMustBe ["NAME", "template", "operator"]
           pure ([PQSeg.name "" none], t)
         else pure ([], tok))
-      let (segments, op) ← loopN F (segments0, tok) (fun (segments, tok) => do
-        let tokValue := tok.value
-        -- one segment; `done` = no further segments may follow
-        let (segments, op, done) ← (
-          if tokValue = "decltype" then do
-            let seg ← parsePqnameDecltypeSpecifier F
-            pure (segments ++ [seg], (none : Option String), false)
-          else if Gen.fundamentals.contains tokValue then
-            if !fundOk then raiseParseError (some tok)
-            else do
-              let seg ← parsePqnameFundamental F tokValue
-              pure (segments ++ [seg], none, true)
-          else do
-            if tokValue = "[[" then consumeAttributeSpecifierSeq F tok
-            let (tok, tokValue) ← (
-              if tokValue = "template" then do
-                let t ← nextTokenMustBe ["NAME"]
-                pure (t, t.value)
-              else pure (tok, tokValue))
-            let (seg, op) ← parsePqnameName F rec tokValue
-            if opTruthy op then
-              if !fnOk then raiseParseError (some tok) "NAME"
-              else pure (segments ++ [seg], op, true)
-            else pure (segments ++ [seg], op, false))
-        if done then pure (.inr (segments, op))
-        else
-          match (← tokenIf ["DBL_COLON"]) with
-          | none => pure (.inr (segments, op))
-          | some _ => do
-            let t ← nextTokenMustBe ["NAME", "operator", "template", "decltype"]
-            pure (.inl (segments, t)))
+      let (segments, op) ← loopN F (segments0, tok) (pqnameBody F rec fnOk fundOk)
       debugPrint "parse_pqname"
       pure (.mk segments classkey hasTypename, op)
+
+/-- one iteration of the token loop of `_parse_type`; the state is
+    (current token, name so far, const, volatile, modifiers, name-optional flag) -/
+def typeBody (F : Nat) (rec : Core) (operatorOk : Bool)
+    (st : CTok × Option PQName × Bool × Bool × Mods × Bool) :
+    M ((CTok × Option PQName × Bool × Bool × Mods × Bool) ⊕ (CTok × Option PQName × Bool × Bool × Mods × Bool)) := do
+  let tok := st.1
+  let pqname := st.2.1
+  let const := st.2.2.1
+  let volatile := st.2.2.2.1
+  let mods := st.2.2.2.2.1
+  let ty := tok.type
+  -- `step` = go on with the next token; otherwise `break`
+  let r : (Option PQName × Bool × Bool × Mods) ⊕ Bool ← (
+    if Gen.pqnameStartTokens.contains ty then
+      if pqname.isSome then pure (.inr false)
+      else if operatorOk && ty = "operator" then pure (.inr true)
+      else do
+        let (pq, _) ← rec.parsePqname (some tok) false true true
+        pure (.inl (some pq, const, volatile, mods))
+    else if Gen.parseTypePtrRefParen.contains ty then
+      if pqname.isNone then raiseParseError (some tok) else pure (.inr false)
+    else if ty = "const" then pure (.inl (pqname, true, volatile, mods))
+    else if Gen.typeKwdBoth.contains ty then do
+      if ty = "extern" then
+        let _ ← tokenIf ["STRING_LITERAL"]
+      pure (.inl (pqname, const, volatile, { mods with both := dictSet mods.both ty tok }))
+    else if Gen.typeKwdMeth.contains ty then
+      pure (.inl (pqname, const, volatile, { mods with meths := dictSet mods.meths ty tok }))
+    else if ty = "mutable" then
+      pure (.inl (pqname, const, volatile, { mods with vars := dictSet mods.vars "mutable" tok }))
+    else if ty = "volatile" then pure (.inl (pqname, const, true, mods))
+    else if Gen.attributeStartTokens.contains ty then do
+      consumeAttribute F tok
+      pure (.inl (pqname, const, volatile, mods))
+    else if ty = "__inline" || ty = "__forceinline" then
+      pure (.inl (pqname, const, volatile, { mods with both := dictSet mods.both "inline" tok }))
+    else pure (.inr false))
+  match r with
+  | .inl (pqname, const, volatile, mods) => do
+    let t ← token
+    pure (.inl (t, pqname, const, volatile, mods, false))
+  | .inr opt => pure (.inr (tok, pqname, const, volatile, mods, opt))
 
 /-- `_parse_type(tok, operator_ok)` -/
 def parseTypeStep (F : Nat) (rec : Core) (tok : Option CTok) (operatorOk : Bool) :
@@ -276,40 +330,7 @@ def parseTypeStep (F : Nat) (rec : Core) (tok : Option CTok) (operatorOk : Bool)
     | some t => pure t
     | none => token)
   let (tok, pqname, const, volatile, mods, pqnameOptional) ←
-    loopN F (tok, (none : Option PQName), false, false, ({} : Mods), false)
-      (fun (tok, pqname, const, volatile, mods, _) => do
-        let ty := tok.type
-        -- `step` = go on with the next token; otherwise `break`
-        let r : (Option PQName × Bool × Bool × Mods) ⊕ Bool ← (
-          if Gen.pqnameStartTokens.contains ty then
-            if pqname.isSome then pure (.inr false)
-            else if operatorOk && ty = "operator" then pure (.inr true)
-            else do
-              let (pq, _) ← rec.parsePqname (some tok) false true true
-              pure (.inl (some pq, const, volatile, mods))
-          else if Gen.parseTypePtrRefParen.contains ty then
-            if pqname.isNone then raiseParseError (some tok) else pure (.inr false)
-          else if ty = "const" then pure (.inl (pqname, true, volatile, mods))
-          else if Gen.typeKwdBoth.contains ty then do
-            if ty = "extern" then
-              let _ ← tokenIf ["STRING_LITERAL"]
-            pure (.inl (pqname, const, volatile, { mods with both := dictSet mods.both ty tok }))
-          else if Gen.typeKwdMeth.contains ty then
-            pure (.inl (pqname, const, volatile, { mods with meths := dictSet mods.meths ty tok }))
-          else if ty = "mutable" then
-            pure (.inl (pqname, const, volatile, { mods with vars := dictSet mods.vars "mutable" tok }))
-          else if ty = "volatile" then pure (.inl (pqname, const, true, mods))
-          else if Gen.attributeStartTokens.contains ty then do
-            consumeAttribute F tok
-            pure (.inl (pqname, const, volatile, mods))
-          else if ty = "__inline" || ty = "__forceinline" then
-            pure (.inl (pqname, const, volatile, { mods with both := dictSet mods.both "inline" tok }))
-          else pure (.inr false))
-        match r with
-        | .inl (pqname, const, volatile, mods) => do
-          let t ← token
-          pure (.inl (t, pqname, const, volatile, mods, false))
-        | .inr opt => pure (.inr (tok, pqname, const, volatile, mods, opt)))
+    loopN F (tok, (none : Option PQName), false, false, ({} : Mods), false) (typeBody F rec operatorOk)
   match pqname with
   | none =>
     if !pqnameOptional then raiseParseError (some tok)
